@@ -14,7 +14,7 @@ PROPERTY = "C02"
 FUNCTIONS = ["DefaultArgsParser.parse/_parse/_parse_argument/_parse_long_option/_parse_short_option/_parse_short_option_set/_add_long_option/_add_short_option/_insert_missing_command_names",
              "Args.set_option/set_argument", "Option.parse / Argument.parse", "ArgsFormat queries"]
 PART = {}
-EXTRA_BOUNDS = "also: options with defaults of the declared native type (S11, S12); dd_tail: 0-2 words, '--', 0-2 tokens from a 7-literal menu on 6 formats (incl. a format whose sibling on the same base object was used first); value_rule: required/optional-value option followed by each of 7 token kinds; dash_run: 3-5 dashes before a real option name; command_parse: Command.parse x configured leniency x explicit/omitted mode x 6 lines."
+EXTRA_BOUNDS = "also: options with defaults of the declared native type (S11, S12); dd_tail: 0-2 words, '--', 0-2 tokens from a 7-literal menu on 6 formats (incl. a format whose sibling on the same base object was used first); value_rule: required/optional-value option followed by each of 7 token kinds; dash_run: 3-5 dashes before a real option name; command_parse: Command.parse x configured leniency x explicit/omitted mode x 6 lines; every token line is also parsed strict then lenient on ONE parser object."
 ALPHA = "-=fox1"
 MENU = ["", "-", "--", "---", "--=", "-=", "null", "--opt", "--flag", "-f", "-o", "--opt=", "-fo", "-of", "--num=x", "-n", "-1", "--maybe", "-m"]
 BOUNDS = {"quick": "1-2 symbolic tokens (lengths 0..3 / 0..2 over {-,=,f,o,x,1}) on 8 format skeletons, plus all 3-token lines over a per-format menu of 12-17 literals (formats S1,S2,S4,S7); strict and lenient",
@@ -38,6 +38,17 @@ def _parse(skel, tokens, lenient):
 def _check(skel, tokens):
     strict = _parse(skel, list(tokens), False)      # any other exception class propagates = violation
     lenient = _parse(skel, list(tokens), True)
+    # the same two questions put to ONE parser object (strict first, then lenient): the second answer is the one a fresh parser gives
+    for first, second, want in ((False, True, lenient),):
+        shared = DefaultArgsParser()
+        for mode in (first, second):
+            try:
+                a = shared.parse(ArgvArgs(["prog"] + list(tokens)), skel.fmt, mode)
+                got = ("ok", a.arguments(False), a.options(False))
+            except ALLOWED as e:
+                got = ("exc", type(e).__name__)
+        if got != want:
+            return False
     if lenient[0] == "exc" and lenient[1] != "ValueError":
         return False                                  # lenient never raises a parse error
     if strict[0] == "ok" and lenient != strict:
@@ -327,7 +338,7 @@ def command_parse(configured: bool, explicit: int, li: int) -> bool:
 
 def conditions(tier):
     quick = tier == "quick"
-    t = 90 if quick else 600
+    t = 150 if quick else 600
     conds = []
     skels = sorted(pfmt.SKELS) + sorted(pfmt.SKELS_NATIVE)
     for sk in skels:
